@@ -232,11 +232,43 @@ def site_computation(ctx, rep, clause):
                isinstance(src.value, ast.Name), '<annotation>.sequence',
                f'searched in `{norm_stmt(src) if src is not None else "?"}`', f.loc(r.node), clause)
     rep.floor('SIB-site', 'site computations in mod_builder.py', n, 4)
-    f = _roles(program.func(f'{MB}:apply_static_mods'))
-    tests = [norm_stmt(x.test) for x in walk_own(f.node) if isinstance(x, ast.If) and 'mod_index ==' in norm_stmt(x.test)]
-    ob(rep, 'SIB-site', f.fq, 'terminal rules apply at index 0 / len(sequence) - 1',
-       sorted(tests) == ['mod_index == 0', 'mod_index == len(annotation.sequence) - 1'], f'{tests}',
-       f'terminal index tests are {tests}', f.loc(), clause)
+    # terminal rules act on the first / last residue only, residue rules on every matched index: for each block the
+    # adder call is reached for exactly those values of the matched index (decided for indices 0..4 of a 5-residue peptide)
+    from ..guards import specialise
+    f = program.func(f'{MB}:apply_static_mods')
+    c = Canon(f.node)
+    hook = _helper_hook(program, MB)
+    for loop in [l for l in walk_own(f.node) if isinstance(l, ast.For) and isinstance(l.target, ast.Name) and
+                 c.text(l.iter).startswith('get_regex_match_indices(')]:
+        calls = [x for x in ast.walk(loop) if isinstance(x, ast.Call) and isinstance(x.func, ast.Attribute) and
+                 x.func.attr.startswith('add_') and _site_of(x.func.attr) in ('internal', 'nterm', 'cterm')]
+        if not calls:
+            continue
+        site = _site_of(calls[0].func.attr)
+        reached = set()
+        for v in range(5):
+            env = {loop.target.id: v, 'mode': 'append'}
+            for x in ast.walk(loop):
+                if isinstance(x, ast.Call) and norm_stmt(x.func) == 'len' and norm_stmt(x).endswith('.sequence)'):
+                    env[norm_stmt(x)] = 5
+                if isinstance(x, ast.Call) and isinstance(x.func, ast.Attribute) and x.func.attr.startswith('has_'):
+                    env[norm_stmt(x)] = False
+            marks = {}
+            try:
+                for st in specialise(loop.body, GuardEval(env, c.aliases(), hook), marks):
+                    if isinstance(st, (ast.Continue, ast.Break, ast.Return)) and marks.get(id(st)):
+                        break
+                    if any(any(y is a_ for a_ in calls) for y in ast.walk(st)):
+                        reached.add(v)
+                        break
+            except _Raises:
+                pass
+        want = {'nterm': {0}, 'cterm': {4}, 'internal': {0, 1, 2, 3, 4}}[site]
+        ob(rep, 'SIB-site', f.fq, f'{site} rules act on ' + {'nterm': 'index 0 only', 'cterm': 'the last index only',
+                                                              'internal': 'every matched index'}[site],
+           reached == want, f'adder reached for indices {sorted(reached)} of 0..4',
+           f'the {site} adder is reached for matched indices {sorted(reached)} of a 5-residue peptide, expected '
+           f'{sorted(want)}', f.loc(calls[0]), clause)
 
 
 def site_index_offset(ctx, rep, clause):
